@@ -1,10 +1,90 @@
 import PyxModel.Sexp
+import PyxModel.Interp.Decode
+import PyxModel.Interp.Model
 
-/-! driver commands of property C15 (stub: no command yet) -/
+/-! driver commands of property C15:
+    `(calls <fuel> <ctx> (enums (NAME (id "enumerator" prev)…)…) (consts (NAME TYPE "text")…) <state> <entry>…)`
+    with entries `(fn NAME kwargs)`, `(brg EE NAME kwargs)`, `(cop CLS NAME kwargs)`, `(iop (i CLS idx) NAME kwargs)`,
+    `(dattr (i CLS idx) NAME)`, `(set (i CLS idx) ATTR value)` (an attribute written from Python), `(enum NAME ENUMERATOR)`, `(const NAME)` — the invocations the harness makes from
+    Python, in order, on one evolving population.
+    → `(ok (<value>…) <state>)`, `(error "…")` or `(timeout)`.
+    Enumerations are given as their S_ENUM rows in ROW order and numbered by the model of `mk_enum`; constants as
+    their CNST rows in row order, converted by the model of `mk_constant`. -/
 namespace Pyx.Driver.C15
-open Pyx Pyx.Sexp
+open Pyx Pyx.Sexp Pyx.Interp
+
+def decodeEnum : Sexp → Option EnumDecl
+  | .list (.str n :: rows) => do
+    let rs ← rows.mapM (fun r => match r with
+      | .list [.int i, .str nm, .int p] => some (⟨i.toNat, nm, p.toNat⟩ : EnumRow)
+      | _ => none)
+    pure ⟨n, enumOrder rs⟩
+  | _ => none
+
+def decodeConst : Sexp → Option ConstRow
+  | .list [.str n, .str ty, .str text] => some ⟨n, ty, text⟩
+  | _ => none
+
+def runEntry (C : Ctx) (rec : Oracle) : Sexp → Option (M Val)
+  | .list [.sym "fn", .str n, kw] => do
+    let kw' ← decodeKwargs kw
+    pure (match findCallable C (fun f => f.kind = .function ∧ f.name = n) with
+      | some f => invoke rec .function f.body kw' .none
+      | none => M.fail ("unknown function " ++ n))
+  | .list [.sym "brg", .str ee, .str n, kw] => do
+    let kw' ← decodeKwargs kw
+    pure (match findCallable C (fun f => f.kind = .bridge ee ∧ f.name = n) with
+      | some f => invoke rec .function f.body kw' .none
+      | none => M.fail ("unknown bridge " ++ n))
+  | .list [.sym "cop", .str c, .str n, kw] => do
+    let kw' ← decodeKwargs kw
+    pure (match findCallable C (fun f => f.kind = .classOp c ∧ f.name = n) with
+      | some f => invoke rec .operation f.body kw' .none
+      | none => M.fail ("unknown operation " ++ n))
+  | .list [.sym "iop", i, .str n, kw] => do
+    let kw' ← decodeKwargs kw
+    let i' ← decodeInst i
+    pure (match findCallable C (fun f => f.kind = .instOp i'.cls ∧ f.name = n) with
+      | some f => invoke rec .operation f.body kw' (.inst i')
+      | none => M.fail ("unknown operation " ++ n))
+  | .list [.sym "dattr", i, .str n] => do
+    let i' ← decodeInst i
+    pure (readField C rec i' n)
+  | .list [.sym "set", i, .str a, v] => do
+    let i' ← decodeInst i
+    let v' ← decodeVal v
+    pure (do M.modifySt (setAttr C i' a v'); pure Val.none)
+  | .list [.sym "enum", .str ns, .str n] => some (evalStep C rec (.enumOrConst ns n))
+  | .list [.sym "const", .str n] => some (lookupVar C n)
+  | _ => none
+
+def runEntries (C : Ctx) (rec : Oracle) : List Sexp → Cfg → List Val → Option (Option (Except Err (List Val × State)))
+  | [], c, acc => some (some (.ok (acc.reverse, c.st)))
+  | e :: rest, c, acc =>
+    match runEntry C rec e with
+    | none => none
+    | some m =>
+      match m c with
+      | none => some none
+      | some (.error err) => some (some (.error err))
+      | some (.ok (v, c')) => runEntries C rec rest c' (v :: acc)
 
 def handle : List Sexp → Option Sexp
+  | sym "calls" :: int fuel :: ctx :: list (sym "enums" :: enums) :: list (sym "consts" :: consts) :: state :: entries =>
+    match decodeCtx ctx, enums.mapM decodeEnum, consts.mapM decodeConst with
+    | some C0, some es, some cs =>
+      let C : Ctx := { C0 with enums := es, consts := constTable cs }
+      match decodeState C state with
+      | none => some (list [sym "bad", str "state"])
+      | some st =>
+        match runEntries C (run C fuel.toNat) entries { fr := mkFrame .function [] .none, st := st } [] with
+        | none => some (list [sym "bad", str "entry"])
+        | some none => some (list [sym "timeout"])
+        | some (some (.error e)) => some (list [sym "error", str e.msg])
+        | some (some (.ok (vs, st'))) => some (list [sym "ok", list (vs.map encodeVal), encodeState C st'])
+    | none, _, _ => some (list [sym "bad", str "ctx"])
+    | _, none, _ => some (list [sym "bad", str "enums"])
+    | _, _, none => some (list [sym "bad", str "consts"])
   | _ => none
 
 end Pyx.Driver.C15
